@@ -1620,7 +1620,22 @@ impl<'t, 'c> Gen<'t, 'c> {
             let lv = LValue { name: target.name.clone(), var: target.var, index, fields, sty: lsty.clone() };
             match self.t.choose(6) {
                 0 | 1 | 2 => {
-                    let e = self.value_for(&lsty);
+                    let mut e = self.value_for(&lsty);
+                    if lsty.ety() == Some(Ty::Str) && self.t.chance(1, 3) {
+                        // the value of another fixed-length location (usually of another length): truncated or padded on store
+                        let mut fixed: Vec<LValue> = vec![];
+                        for a in &all {
+                            for (f, st) in self.leaf_paths(&a.sty) {
+                                if matches!(st, STy::Fixed(_)) {
+                                    let index = a.bounds.iter().map(|(lo, _)| lit_i(*lo as i64)).collect();
+                                    fixed.push(LValue { name: a.name.clone(), var: a.var, index, fields: f, sty: st });
+                                }
+                            }
+                        }
+                        if !fixed.is_empty() {
+                            e = Expr::Load(fixed[self.t.choose(fixed.len())].clone());
+                        }
+                    }
                     main.push(Stmt::Assign(lv, e));
                 }
                 3 => {
